@@ -464,14 +464,22 @@ func c15RunEndpoint(lp *vk.ListenerPool, in c15Input, work string) (res c15Resul
 			if err != nil {
 				return
 			}
-			go func() {
-				buf := make([]byte, 4096)
-				for {
-					if _, err := cs.Read(buf); err != nil {
-						return
+			reactive := strings.HasPrefix(in.Class, "acks:reactive:")
+			if !reactive {
+				go func() {
+					buf := make([]byte, 4096)
+					for {
+						if _, err := cs.Read(buf); err != nil {
+							return
+						}
 					}
-				}
-			}()
+				}()
+			} else {
+				// a hostile receiver that follows the sender's control stream and
+				// answers each record with acknowledgements of its own choosing
+				// (repeated, contradictory, for other files), back to back
+				go c15ReactiveAcks(cs, strings.TrimPrefix(in.Class, "acks:reactive:"), ctrl)
+			}
 			go func() { // accept and drain data streams
 				for {
 					ds, err := p.Accept.AcceptStream(ctx)
@@ -488,9 +496,13 @@ func c15RunEndpoint(lp *vk.ListenerPool, in c15Input, work string) (res c15Resul
 					}()
 				}
 			}()
-			time.Sleep(30 * time.Millisecond)
-			_, _ = cs.Write(ctrl)
-			linger(500 * time.Millisecond)
+			if reactive {
+				linger(3 * time.Second)
+			} else {
+				time.Sleep(30 * time.Millisecond)
+				_, _ = cs.Write(ctrl)
+				linger(500 * time.Millisecond)
+			}
 			_ = cs.Close()
 			linger(100 * time.Millisecond)
 			_ = p.Accept.Close()
@@ -575,6 +587,93 @@ func c15Record(e *Env) (ctrlW, ctrlR []byte, dataW []byte, ok bool) {
 		return nil, nil, nil, false
 	}
 	return deco.Recorded(0, "w"), deco.Recorded(0, "r"), deco.Recorded(1, "w"), true
+}
+
+// c15ReactiveAcks reads the sender's control stream record by record and
+// writes acknowledgements according to mode. recorded holds the receiver->
+// sender bytes of a healthy exchange (source of plausible FileResumeInfo
+// records).
+func c15ReactiveAcks(cs transfer.Stream, mode string, recorded []byte) {
+	infos := map[uint64]transfer.FileResumeInfo{}
+	ms := vk.NewMemStream(recorded)
+	for ms.Remaining() > 0 {
+		typ, msg, err := transfer.VerifCoreReadControlMessage(ms)
+		if err != nil {
+			break
+		}
+		if typ == transfer.VerifTypeFileResumeInfo {
+			ri := msg.(transfer.FileResumeInfo)
+			infos[ri.StreamID] = ri
+		}
+	}
+	if _, err := transfer.VerifCoreReadControlHeader(cs); err != nil {
+		return
+	}
+	rep := func(n int, f func(w transfer.Stream)) {
+		// encode n copies into one buffer so that they arrive in one read
+		buf := vk.NewMemStream(nil)
+		for i := 0; i < n; i++ {
+			f(buf)
+		}
+		_, _ = cs.Write(buf.Out.Bytes())
+	}
+	n := 8
+	switch {
+	case strings.HasSuffix(mode, "-x1"):
+		n = 1
+	case strings.HasSuffix(mode, "-x2"):
+		n = 2
+	case strings.HasSuffix(mode, "-x32"):
+		n = 32
+	}
+	for {
+		typ, msg, err := transfer.VerifCoreReadControlMessage(cs)
+		if err != nil {
+			return
+		}
+		switch typ {
+		case transfer.VerifTypeResumeRequest:
+			rq := msg.(transfer.ResumeRequest)
+			ri, ok := infos[rq.StreamID]
+			if !ok {
+				ri = transfer.FileResumeInfo{FileID: rq.FileID, StreamID: rq.StreamID}
+			}
+			k := 1
+			if strings.HasPrefix(mode, "resumeinfo") {
+				k = n
+			}
+			rep(k, func(w transfer.Stream) { _ = transfer.VerifCoreWriteFileResumeInfo(w, ri) })
+		case transfer.VerifTypeFileEnd:
+			fe := msg.(transfer.FileEnd)
+			switch {
+			case strings.HasPrefix(mode, "filedone-ok-then-failed"):
+				rep(1, func(w transfer.Stream) {
+					_ = transfer.VerifCoreWriteFileDone(w, transfer.FileDone{StreamID: fe.StreamID, OK: true})
+					for i := 1; i < n; i++ {
+						_ = transfer.VerifCoreWriteFileDone(w, transfer.FileDone{StreamID: fe.StreamID, OK: false, ErrMsg: "x"})
+					}
+				})
+			case strings.HasPrefix(mode, "filedone-other-stream"):
+				rep(n, func(w transfer.Stream) {
+					_ = transfer.VerifCoreWriteFileDone(w, transfer.FileDone{StreamID: fe.StreamID ^ 0x55, OK: true})
+				})
+				rep(1, func(w transfer.Stream) { _ = transfer.VerifCoreWriteFileDone(w, transfer.FileDone{StreamID: fe.StreamID, OK: true}) })
+			case strings.HasPrefix(mode, "filedone-spaced"):
+				for i := 0; i < n; i++ {
+					rep(1, func(w transfer.Stream) { _ = transfer.VerifCoreWriteFileDone(w, transfer.FileDone{StreamID: fe.StreamID, OK: true}) })
+					time.Sleep(time.Duration(i%3) * 200 * time.Microsecond)
+				}
+			default: // filedone / resumeinfo: n identical records back to back
+				k := n
+				if strings.HasPrefix(mode, "resumeinfo") {
+					k = 1
+				}
+				rep(k, func(w transfer.Stream) { _ = transfer.VerifCoreWriteFileDone(w, transfer.FileDone{StreamID: fe.StreamID, OK: true}) })
+			}
+		case transfer.VerifTypeEnd:
+			return
+		}
+	}
 }
 
 func c15EndpointInputs(e *Env, ctrlW, ctrlR, dataW []byte) []c15Input {
@@ -664,6 +763,18 @@ func c15EndpointInputs(e *Env, ctrlW, ctrlR, dataW []byte) []c15Input {
 	mut("ep-recv", ctrlW, dataW, stage, false)
 	mut("ep-recv", dataW, nil, func(int) string { return "data" }, true)
 	mut("ep-send", ctrlR, nil, func(int) string { return "acks" }, false)
+	// a receiver that reacts to the sender's records with repeated /
+	// contradictory acknowledgements (each several times: the interleaving of
+	// the sender's acknowledgement reader with its waiters differs per run)
+	for _, mode := range []string{"filedone-x1", "filedone-x2", "filedone-x8", "filedone-x32", "filedone-spaced-x8", "filedone-ok-then-failed-x8", "filedone-other-stream-x8", "resumeinfo-x8", "resumeinfo-x32"} {
+		reps := e.Pick(3, 12)
+		if mode == "filedone-x1" {
+			reps = 1
+		}
+		for k := 0; k < reps; k++ {
+			add("ep-send", "acks:reactive:"+mode, ctrlR, nil, mode == "filedone-x1")
+		}
+	}
 	// hand-made hostile records at the "records" stage
 	// own data frames for file a.bin (the recorded stream may start with another file)
 	var keyA uint64
